@@ -266,6 +266,7 @@ class RangesAssembler:
             }
             if name in nodes:
                 self.inputs[name] = _get_indices_intersection(base, ist)
+                self.outputs[name] = n, r
                 self.missing.remove((n, r))
             else:
                 ists[name] = ist
@@ -273,8 +274,11 @@ class RangesAssembler:
         if len(ists) <= self.compact:
             for k, ist in ists.items():
                 self.inputs[k] = _get_indices_intersection(base, ist)
+                self.outputs[k] = ist['n1'], ist['r1']
                 f = functools.partial(format_output, ist),
-                dsp.add_data(k, [[sh.EMPTY]], filters=f)
+                dsp.add_data(
+                    k, [[sh.EMPTY]], filters=f, initial_dist=sh.inf(1, 0)
+                )
         else:
             if sh.SELF not in nodes:
                 dsp.add_data(sh.SELF, sh.inf(2, 0))
